@@ -23,5 +23,35 @@ package ndjson
 //@   property C02
 //@   iteration 0: every_field_may_be_absent: emittedHere("if (auto it = j.find(\"%s\"); it != j.end()) {\n") == 1 && emittedHere("it->get_to(value.%s);\n") == 1
 
+// docs/reference/ndjson.md, Enums: a value that has a symbol is written as that symbol (a JSON string), any other
+// value as its integer; on reading, a string is looked up among the symbols (an unknown one is an error) and a number
+// is taken as the integer value.
+//@ func writeEnumConverters$1$1
+//@   property C02
+//@   iteration 0: a_value_is_written_as_its_own_symbol: emitted("case %s::%s:\n") == 1 && emittedArg("case %s::%s:\n", 0, 1, string) == common.EnumValueIdentifierName(v.Symbol) && emitted("j = \"%s\";\n") == 1 && emittedArg("j = \"%s\";\n", 0, 0, string) == v.Symbol && emitted("break;\n") == 1
+//@   ensures a_value_without_symbol_is_written_as_integer: emitted("default:\n") == 1 && emitted("j = static_cast<underlying_type>(value);\n") == 1
+//@ func writeEnumConverters$2
+//@   property C02
+//@   ensures a_string_is_looked_up_among_the_symbols: emitted("if (j.is_string()) {\n") == 1 && emitted("if (auto res = %s.find(symbol); res != %s.end()) {\n") == 1 && emittedArg("if (auto res = %s.find(symbol); res != %s.end()) {\n", 0, 0, string) == enumValuesMapName(t) && emittedArg("if (auto res = %s.find(symbol); res != %s.end()) {\n", 0, 1, string) == enumValuesMapName(t) && emitted("value = res->second;\n") == 1 && emitted("return;\n") == 1
+//@   ensures an_unknown_symbol_is_an_error: emitted("throw std::runtime_error(\"Invalid enum value '\" + symbol + \"' for enum %s\");\n") == 1
+//@   ensures a_number_is_the_integer_value: emitted("value = static_cast<%s>(j.get<underlying_type>());\n") == 1
+
+// Flags: zero is written as the symbol of the zero value when there is one (an empty array otherwise); any other value
+// as the array of the symbols whose bits it has, each tested and cleared with its own enumerator; a value with bits
+// that no symbol has as its integer. On reading, a number is the integer value and an array ORs its symbols together.
+//@ func writeFlagsConverters$1
+//@   property C02
+//@   ensures unnamed_bits_are_written_as_integer: emitted("j = value.Value();\n") == 1
+//@   iteration 0: a_flag_is_tested_cleared_and_named: v != zero ==> emitted("if (remaining.HasFlags(%s::%s)) {\n") == 1 && emittedArg("if (remaining.HasFlags(%s::%s)) {\n", 0, 1, string) == common.EnumValueIdentifierName(v.Symbol) && emitted("remaining.UnsetFlags(%s::%s);\n") == 1 && emittedArg("remaining.UnsetFlags(%s::%s);\n", 0, 1, string) == common.EnumValueIdentifierName(v.Symbol) && emitted("arr.push_back(\"%s\");\n") == 1 && emittedArg("arr.push_back(\"%s\");\n", 0, 0, string) == v.Symbol
+//@   iteration 0: the_zero_value_is_not_a_flag: v == zero ==> emitted("if (remaining.HasFlags(%s::%s)) {\n") == 0 && emitted("arr.push_back(\"%s\");\n") == 0
+//@ func writeFlagsConverters$1$1
+//@   property C02
+//@   ensures zero_is_written_as_the_zero_symbol: (zero != nil ==> emitted("arr.push_back(\"%s\");\n") == 1 && emittedArg("arr.push_back(\"%s\");\n", 0, 0, string) == zero.Symbol) && (zero == nil ==> emitted("arr.push_back(\"%s\");\n") == 0) && emitted("j = arr;\n") == 1 && emitted("return;\n") == 1
+//@ func writeFlagsConverters$2
+//@   property C02
+//@   ensures a_number_is_the_integer_value: emitted("if (j.is_number()) {\n") == 1 && emitted("value = j.get<underlying_type>();\n") == 1
+//@   ensures symbols_are_ored_together: emitted("value = {};\n") == 1 && emitted("value |= res->second;\n") == 1 && emitted("if (auto res = %s.find(item); res != %s.end()) {\n") == 1 && emittedArg("if (auto res = %s.find(item); res != %s.end()) {\n", 0, 0, string) == enumValuesMapName(t)
+//@   ensures an_unknown_symbol_is_an_error: emitted("throw std::runtime_error(\"Invalid enum value '\" + item + \"' for enum %s\");\n") == 1
+
 // Output may not depend on the iteration order of a Go map (C12): decided per `range` over a map.
 //@ map-order C12 package
